@@ -10,7 +10,7 @@ RULE = ('seeded scenarios biased to rules that match newlines only through class
         'computed from the scanner\'s own reported texts and ops, checked at every action entry, after every op and after every yylex return; '
         'distinct = event-log hash, non-trivial = >= 2 tokens and >= 1 newline consumed')
 TIERS = {
-    'quick': {'scenarios': 48, 'plans': 100, 'wall_cap': 600},
+    'quick': {'scenarios': 80, 'plans': 200, 'wall_cap': 600},
     'thorough': {'scenarios': 5000, 'plans': 250, 'wall_cap': 3300},
 }
 COMPONENTS = sb.COMPONENTS
@@ -24,7 +24,7 @@ class P(sb.StreamProp):
     USE_MATCHER = False
 
     def gen_scenario(self, rng):
-        want = {'feats': ('nl',), 'lineno': rng.random() < 0.85, 'flavors': ['nr', 'nr', 'r', 'r', 'c99', 'cxx']}
+        want = {'feats': ('nl',), 'lineno': rng.random() < 0.85, 'flavors': ['nr', 'nr', 'r', 'r', 'c99', 'c99', 'cxx', 'cxx']}
         sc = scenario.gen_scenario(rng, want=want)
         return sc
 
